@@ -75,7 +75,7 @@ def rdNumeric (nbits scale ref : Int) : Rd := fun bs => do
   let (v, r) ← readUIntOrNone n bs
   pure ((numVal v scale ref, id), r)
 
-theorem encNumericU_eq (dd : DDesc) (nbits scale ref : Int) (s : St) :
+theorem sim_encNumericU_eq (dd : DDesc) (nbits scale ref : Int) (s : St) :
     encNumericU dd nbits scale ref s = encStep dd (fldNumeric nbits scale ref) s := by
   unfold encNumericU encStep nextVal fldNumeric St.write St.pushDesc curVals
   simp only []
@@ -119,7 +119,7 @@ theorem decNumericU_eq (dd : DDesc) (nbits scale ref : Int) (t : St) :
     | error e => rfl
     | ok x => rfl
 
-theorem natWidth_ok {nbits : Int} {n : Nat} (h : natWidth nbits = .ok n) : 0 < n ∧ (n : Int) = nbits := by
+theorem sim_natWidth_ok {nbits : Int} {n : Nat} (h : natWidth nbits = .ok n) : 0 < n ∧ (n : Int) = nbits := by
   unfold natWidth at h
   split at h
   · cases h
@@ -192,7 +192,7 @@ def rdCodeflag (n : Nat) : Rd := fun bs => do
   let (v, r) ← readUIntOrNone n bs
   pure ((uintVal v, id), r)
 
-theorem encCodeflagU_eq (dd : DDesc) (n : Nat) (s : St) :
+theorem sim_encCodeflagU_eq (dd : DDesc) (n : Nat) (s : St) :
     encCodeflagU dd n s = encStep dd (fldCodeflag n) s := by
   unfold encCodeflagU encStep nextVal fldCodeflag St.write St.pushDesc curVals
   simp only []
@@ -258,7 +258,7 @@ def rdString (nbytes : Nat) : Rd := fun bs => do
   let (b, r) ← readBytes nbytes bs
   pure ((.bytes b, id), r)
 
-theorem encStringU_eq (dd : DDesc) (n : Nat) (s : St) :
+theorem sim_encStringU_eq (dd : DDesc) (n : Nat) (s : St) :
     encStringU dd n s = encStep dd (fldString n) s := by
   unfold encStringU encStep nextVal fldString St.write St.pushDesc curVals fieldBytes writeBytes
   simp only []
@@ -304,7 +304,7 @@ def rdNewRefval (id nbits : Nat) : Rd := fun bs => do
   let (v, r) ← readInt nbits bs
   pure ((.int v, updNewRefval id v), r)
 
-theorem encNewRefvalU_eq (e : Elem) (n : Nat) (s : St) :
+theorem sim_encNewRefvalU_eq (e : Elem) (n : Nat) (s : St) :
     encNewRefvalU e n s = encStep (.plain e) (fldNewRefval e.id n) s := by
   unfold encNewRefvalU encStep nextVal fldNewRefval St.write St.pushDesc curVals setNewRefval St.setRegs
   simp only []
@@ -325,7 +325,7 @@ theorem decNewRefvalU_eq (e : Elem) (n : Nat) (t : St) :
   | error e => rfl
   | ok x => rfl
 
-theorem fieldInt_ok {v : Int} {n : Nat} {f : Bits} (h : fieldInt v n = .ok f) :
+theorem sim_fieldInt_ok {v : Int} {n : Nat} {f : Bits} (h : fieldInt v n = .ok f) :
     0 < n - 1 ∧ v.natAbs < 2 ^ (n - 1) ∧ f = decide (v < 0) :: toBits (n - 1) v.natAbs := by
   unfold fieldInt writeInt writeBool at h
   have h' : fieldUInt (Int.ofNat v.natAbs) (n - 1) = .ok (toBits (n - 1) v.natAbs) ∧ 0 < n - 1 ∧
@@ -344,7 +344,7 @@ theorem fieldInt_ok {v : Int} {n : Nat} {f : Bits} (h : fieldInt v n = .ok f) :
   rw [writeUInt_ofNat _ _ _ h'.2.1 h'.2.2] at h
   cases h; rfl
 
-theorem readInt_field (n : Nat) (v : Int) (rest : Bits) (hn : 0 < n - 1) (hv : v.natAbs < 2 ^ (n - 1)) :
+theorem sim_readInt_field (n : Nat) (v : Int) (rest : Bits) (hn : 0 < n - 1) (hv : v.natAbs < 2 ^ (n - 1)) :
     readInt n (decide (v < 0) :: toBits (n - 1) v.natAbs ++ rest) = .ok (v, rest) := by
   have hn0 : n ≠ 0 := by omega
   simp only [readInt, hn0, if_false, List.cons_append, readBool, readUInt_toBits _ _ rest hn hv]
@@ -364,8 +364,8 @@ theorem codec_newRefval (id n : Nat) : Codec (fldNewRefval id n) (rdNewRefval id
     | ok f =>
       rw [hf] at h
       cases h
-      obtain ⟨h0, hlt, rfl⟩ := fieldInt_ok hf
-      have := readInt_field n i rest h0 hlt
+      obtain ⟨h0, hlt, rfl⟩ := sim_fieldInt_ok hf
+      have := sim_readInt_field n i rest h0 hlt
       simp only [List.cons_append] at this ⊢
       simp only [this]
   | _ => cases h
